@@ -112,7 +112,8 @@ Proof.
     cbn [stepr] in H. unfold step_pw_reply in H. chks H. okinv H. apply delivered_In in C0.
     destruct x as [m o | kd |].
     + destruct (o_entry _ _ O _ _ _ _ C0) as [Ho _]. apply N.eqb_neq in Ho.
-      unfold onepcm, hasm, F in *. rd. rewrite Ho. destruct (m =? 0); rd; auto.
+      match goal with |- context [if ?b then setn _ FMinc _ else _] => destruct b end;
+        (unfold onepcm, hasm, F in *; rd; rewrite Ho; destruct (m =? 0); rd; auto).
     + unfold onepcm, hasm, F in *. rd. auto.
     + unfold onepcm, hasm, F in *. rd. auto.
   - cbn [stepr] in H. unfold step_rb_send in H. chks H. okinv H. unfold onepcm, hasm, F in *. rd. auto.
